@@ -425,7 +425,7 @@ def coord_pairs(repo, col, ms, qn, var):
                         ok = True
         # bounds that arrive as plain values (loop targets over a table of
         # tiles computed elsewhere) carry no arithmetic to compare
-        opaque = any(f is not None and re.match(r"^[A-Za-z_]\w*$", f)
+        opaque = any(f is not None and re.match(r"^[A-Za-z_]\w*(\.\w+)?$", f)
                      for f in (lo, hi))
         col.add(rule, fn, "%s[%d]: (%s, %s)" % (var, k, lo, hi), ok or opaque,
                 "" if ok else ("bounds computed where this rule does not "
